@@ -742,6 +742,9 @@ class Interp:
                 return VInt(Lin(0, ("addr", v.root[1]), 1), 64, False)
             if isinstance(v, VOpaque) and v.tag == "nodes-ptr-start":
                 return VInt(Lin(0, ("addr0",), 1), 64, False)
+            if isinstance(v, VRef) and v.root[0] == "foreign":
+                st.bounds[("addrf",)] = (1, ISIZE_MAX)
+                return VInt(Lin(0, ("addrf",), 1), 64, False)
             raise Undecided("pointer-to-integer cast of %r" % (v,))
         raise Undecided("cast " + ck)
 
@@ -797,8 +800,20 @@ class Interp:
             if sa[0] == "idx" and sb[0] == "len0" and st.nodes[sa[1]].invec and a.c <= b.c:
                 # idx(n) <= len0 - 1 for every pre-existing slot:  idx + ac < len0 + bc  when ac <= bc
                 return op == "Lt"
-            if sa[0] == "len0" and sb[0] == "idx" and st.nodes[sb[1]].invec and a.c >= b.c:
-                return False     # len0 + ac > idx + bc : neither Lt nor Eq
+            if sa[0] == "len0" and sb[0] == "idx" and st.nodes[sb[1]].invec:
+                # idx <= len0 - 1:  len0 + ac < idx + bc needs bc >= ac + 2;  equality needs bc >= ac + 1
+                if op == "Lt" and b.c <= a.c + 1:
+                    return False
+                if op == "Eq" and b.c <= a.c:
+                    return False
+            # ("oob",) is the slot index of an id beyond the end of the node vector: oob >= len0
+            if sa[0] == "len0" and sb[0] == "oob" and b.c > a.c:
+                return op == "Lt"        # len0 + ac < oob + bc, hence also not equal
+            if sa[0] == "oob" and sb[0] == "len0" and a.c >= b.c:
+                if op == "Lt":
+                    return False
+                if op == "Eq" and a.c > b.c:
+                    return False
         key = (op, a.k, a.sym, a.c, b.k, b.sym, b.c)
         if key in st.cmp:
             return st.cmp[key]
@@ -904,6 +919,10 @@ class Interp:
                     return VBool(True)
             if op == "Div" and a.t.sym and a.t.sym[0] == "off" and b.t.sym == ("size",) and a.t.k == 1 and b.t.k == 1 and a.t.c == 0 and b.t.c == 0:
                 return VInt(Lin(0, ("idx", a.t.sym[1]), 1), bits, signed)
+            if op == "Div" and a.t.sym == ("offf",) and b.t.sym == ("size",) and a.t.k == 1 and b.t.k == 1 and a.t.c == 0 and b.t.c == 0:
+                # an allocation above the node vector starts at or beyond its end: offset >= len * size, so the quotient is an out-of-range slot index
+                st.bounds[("oob",)] = (0, ISIZE_MAX)
+                return VInt(Lin(0, ("oob",), 1), bits, signed)
             if op in ("Eq", "Ne", "Lt", "Le", "Gt", "Ge"):
                 return VBool(self.cmp(st, a.t, b.t, op))
             if op in ("Add", "Sub", "AddWithOverflow", "SubWithOverflow", "AddUnchecked", "SubUnchecked"):
